@@ -763,14 +763,25 @@ func (resp *Response) BodyWriteTo(w io.Writer) error {
 //
 // It is safe re-using p after the function returns.
 func (resp *Response) AppendBody(p []byte) {
-	resp.closeBodyStream(nil)  //nolint:errcheck
-	resp.bodyBuffer().Write(p) //nolint:errcheck
+	resp.closeBodyStream(nil)        //nolint:errcheck
+	resp.appendBodyBuffer().Write(p) //nolint:errcheck
 }
 
 // AppendBodyString appends s to response body.
 func (resp *Response) AppendBodyString(s string) {
-	resp.closeBodyStream(nil)        //nolint:errcheck
-	resp.bodyBuffer().WriteString(s) //nolint:errcheck
+	resp.closeBodyStream(nil)              //nolint:errcheck
+	resp.appendBodyBuffer().WriteString(s) //nolint:errcheck
+}
+
+// appendBodyBuffer returns the body buffer for appending: a body installed
+// with SetBodyRaw is copied into it first instead of being dropped.
+func (resp *Response) appendBodyBuffer() *bytebufferpool.ByteBuffer {
+	raw := resp.bodyRaw
+	bb := resp.bodyBuffer()
+	if raw != nil {
+		bb.Set(raw)
+	}
+	return bb
 }
 
 // SetBody sets response body.
